@@ -11,6 +11,14 @@ Two families of cases, both run on the REAL code in a scratch directory and on t
 * reads: `.bin` and `.cbin` readers of the same recording, sample selectors placed on / next to / across chunk bounds;
   the rows returned by both backends are compared with `ChunkRead.rawCbin` / `rawBin`, and the calibrated reads
   `sr[nsel, csel]` of the two readers with each other, bit for bit.
+* interruptions BETWEEN two file-system effects of a call (after the last chunk / after the header / after the rename, before
+  each unlink): the directory is compared with the PREFIX of the model's effect list (`FsCompressEffects.crash…`), and every
+  second fired chunk fault is compared in that prefix form as well.
+* path names: `PurePath.suffix / stem / with_suffix`, `Reader.is_mtscomp`, `_get_companion_file` and the data file chosen by
+  `Reader.__init__` on generated names and real directories vs `FsPath.*`.
+
+The order of the file-system calls of the three functions is additionally re-read from the source text on every run
+(harness/tiespecs/c02.py -> lean/IblVerif/Generated/SrcC02.lean) and proved equal to the model's call lists (Tie/C02.lean).
 """
 import contextlib
 import gc
@@ -55,6 +63,17 @@ THEOREMS = [
     'IblVerif.C02.int_below_minus_n_counterexample',
     'IblVerif.C02.plain_decompress_not_atomic',
     'IblVerif.C02.torn_bin_recompressed_counterexample',
+    'IblVerif.C02.steps_interpret_effect_lists',
+    'IblVerif.C02.compress_interrupted_anywhere',
+    'IblVerif.C02.toScratch_interrupted_anywhere',
+    'IblVerif.C02.decompress_interrupted_anywhere',
+    'IblVerif.C02.final_names_complete_any_interruption',
+    'IblVerif.C02.interrupted_after_header_next_to_stale_cbin_counterexample',
+    'IblVerif.C02.call_order',
+    'IblVerif.C02.derived_names_are_siblings',
+    'IblVerif.C02.is_mtscomp_on_derived_names',
+    'IblVerif.C02.companions_agree',
+    'IblVerif.C02.resolve_on_names',
 ]
 RULE = ('(1) file-system sequences: recording = metadata flavour (nidq with 1..385 channels boundary-biased; 3A/3B/NP2.1/NP2.4/NPultra '
         'ap, 3B lf, the 277-channel subset) x chunk size 8..60 samples x 1..7 chunks with a short or full last chunk x random int16 '
@@ -68,7 +87,16 @@ RULE = ('(1) file-system sequences: recording = metadata flavour (nidq with 1..3
         '(2) reads: same recording family, compressed by compress_file; sample selectors: slices with start/stop from '
         '{None, 0, chunk bound +-1, ns +-1, their negatives, beyond the end, random}, step from {None, 1, 2, 3, chunk size +-1, > ns}, '
         'ints in [-ns, ns + 5]; channel selectors slice/int/list/strided; through x.cbin, and x.meta with only x.cbin present. '
-        'Non-trivial: the selector touches >= 2 chunks or has a step > 1 or is negative; distinct by (recording, selector).')
+        'Non-trivial: the selector touches >= 2 chunks or has a step > 1 or is negative; distinct by (recording, selector). '
+        '(3) interruptions between two effects: 30 % of the compress_file / decompress_file calls without another fault carry one of '
+        '{after the last chunk before x.ch, after x.ch before the check, after the rename before the unlink of x.bin; before the unlink of x.cbin, '
+        'before the unlink of x.ch}; the exhaustive box holds each of them for every entry point, flag and initial directory; every second fired chunk '
+        'fault is sent to the model as "k primitive effects of the effect list" instead of "fault at chunk j". '
+        '(4) path names: stems from a list of SpikeGLX-like names (several dots, leading / trailing dot, the word cbin inside the stem) or random '
+        'over {a, b, ., _, cbin, bin, c, tmp, -, 1}, 30 % with a UUID part, x 15 suffixes (the six literals of the source, none, upper case, cbin as an '
+        'infix, two dots); real directories holding a random subset of {x.bin, x.cbin, x.cbin_tmp, x.ch, x.meta, x.bin_temp, x.lf.bin, x.extra.meta, '
+        'x.ap.ch, x2.meta, x2.bin} with and without UUID parts, queried through every present name and the four siblings, argument as Path / str. '
+        'Non-trivial: >= 2 dots, or cbin in the name, or a directory query.')
 ASSUMPTIONS = [
     'the content of x.bin may be REPLACED between calls (same ns/nc, other samples: an environment event `rewrite`), earlier outputs staying on disk; '
     'the "current content" of the recording is what the last rewrite - or the last successful decompress_file - put into x.bin',
@@ -80,9 +108,18 @@ ASSUMPTIONS = [
     'the .meta may announce more or fewer samples than are on disk (whole frames); both readers must expose the frames on disk (Reader.open fudges '
     'meta[fileTimeSecs]); reading ns back from fileTimeSecs relies on round(fl(fl(k/fs)*fs)) = k (C11)',
     'x.meta exists and is never touched; one chunk size per recording (compress_file is always called with the same chunk_duration)',
+    'interruptions between two effects are injected as exceptions raised by whatever comes next before it acts: the pool join after the last chunk '
+    '(stand-in pool only), mtscomp.check, the removal primitive (Path.unlink / os.unlink / os.remove) for *.bin / *.cbin / *.ch; the theorems state '
+    'the same for a process crash (a prefix of the primitive effects), which the harness cannot inject; x.ch is modelled as written in one step '
+    '(mtscomp opens it under its final name and dumps the JSON: a crash inside that step can leave an empty / partial x.ch next to the complete '
+    'x.cbin_tmp — not modelled, dependency); "after x.ch before the check" is not injected next to a stale x.cbin (same excluded class as the failing rename)',
+    'path names: file names without "/" other than "." and ".."; CPython 3.12 pathlib semantics (suffix = from the last dot, unless it is the first or '
+    'the last character); glob patterns made from stems without glob metacharacters (* ? [); _get_companion_file with several glob candidates and no '
+    'direct hit: WHICH candidate is returned (directory order) is not a demand — both sides must return one of them; which exception a missing data '
+    'file raises in Reader.__init__ is not a demand; the UUID recogniser of the ONE library is a parameter of the model (its result is handed over)',
     'faults are exceptions: (a) raised inside mtscomp while chunk k is produced, (b) raised by the rename (compress_file) / shutil.move '
     '(decompress_to_scratch) that publishes the finished temporary file - injected by refusing every publishing primitive (Path.rename / Path.replace / os.rename / os.replace / shutil.move) for that destination, '
-    'or for real by a directory sitting at x.cbin; not process crashes between two system calls, not failures of unlink; '
+    'or for real by a directory sitting at x.cbin, (c) raised between two effects (previous item); process crashes themselves are not injected (the prefix theorems cover them); '
     'with n_threads = T the chunks of one batch are produced before any is written, so (k // T) * T chunks have reached the file',
     'the atomicity trace theorems exclude a fault inside the PLAIN decompress_file (mtscomp writes straight to x.bin; the property claims atomic '
     'publication only for compression and decompress_to_scratch); the model reproduces the partial x.bin and the correspondence covers it',
@@ -95,6 +132,9 @@ ASSUMPTIONS = [
     '(their mtscomp backend is closed) — transparency is checked through freshly opened readers',
 ]
 TRUSTED = [
+    'the translator harness/pyfn2lean.py and the event patterns of harness/tiespecs/c02.py (which call statements are read as which event; '
+    'path-valued locals as opaque integers); the refinement of a call into primitive effects (expandCall: mtscomp writes its output chunk by chunk, '
+    'then the header) is hand-written from the mtscomp 1.0.2 source and compared with the real code at every injectable point',
     'mtscomp 1.0.2 / zlib as the chunk codec: decode(encode(chunk)) = chunk (the hypothesis Codec.Lossless; exercised byte-exactly every run)',
     'POSIX rename replaces atomically, unlink removes (os level, not modelled below the call)',
     'classification of a file by the chunks it holds uses reference chunk byte strings produced by calling mtscomp.compress directly',
@@ -103,13 +143,27 @@ LEVEL_TEXT = ('Lean 4 theorems over a file-state machine transcribed from compre
               'open, for every recording, every lossless codec, every sequence of calls by fresh or stale readers and every fault point: final names '
               '(x.cbin + x.ch, x.bin / scratch x.bin from decompress_to_scratch) absent or complete, the recording always held by a complete file, failures touch '
               'only .cbin_tmp / .bin_temp, in-place variants remove the source only after the replacement is complete, byte-exact round trip, path '
-              'resolution through bin/cbin/meta, and the chunked read path of the compressed backend equals NumPy slicing for every start/stop and positive step; '
-              'model tied to the real code by an exact differential run with injected faults')
-LEVEL_NOTE = ('trusted: Lean kernel; mtscomp/zlib as a lossless chunk codec (parameter + law); rename/unlink; the Python harness. The mtscomp slicing '
-              'algorithm is modelled from the installed 1.0.2 source (external dependency). Not carried: process crash between two system calls, a fault between '
-              'writing x.ch and renaming x.cbin_tmp, faults inside plain decompress_file (non-atomic by design, reproduced by the model).')
+              'resolution through bin/cbin/meta, and the chunked read path of the compressed backend equals NumPy slicing for every start/stop and positive step. '
+              'The ORDER of file-system calls of the three functions is data (call lists) proved equal to the event sequence regenerated from the source text on '
+              'every run (translator tie); the step functions are proved to be the interpretation of the refined effect lists at every fault point; and the '
+              'atomicity statements are proved for an interruption between ANY two primitive effects (every prefix of the effect list), also inside arbitrary '
+              'call sequences. Path-name logic (with_suffix on names with several dots, is_mtscomp, companion lookup, the data file chosen from x.meta) is '
+              'modelled on character lists and proved for every stem. Model tied to the real code by an exact differential run with injected faults')
+LEVEL_NOTE = ('trusted: Lean kernel; mtscomp/zlib as a lossless chunk codec (parameter + law); rename/unlink; the Python harness; the translator and its '
+              'event patterns. The mtscomp slicing algorithm and the refinement of mtscomp.compress / decompress into primitive effects are modelled from the '
+              'installed 1.0.2 source (external dependency). Translator tie covers: the sequence of file-system calls of compress_file, decompress_file, '
+              'decompress_to_scratch for every value of keep_original / scratch_dir is None / bin_file.exists() / "out" in kwargs, with the variables they '
+              'act on and the suffix literals the path variables are made from. NOT covered by the tie (correspondence run only): the assertions on is_mtscomp, '
+              'the re-pointing self.file_bin = ..., which variable a binding statement binds, Reader.__init__ / open / _get_companion_file (path- and '
+              'None-valued expressions are outside the translator subset). Only numeric / sampled: that the hand-written path model equals pathlib / glob '
+              '(compared on thousands of names per run), the glob order, the UUID recogniser (parameter). Not carried: a crash INSIDE the writing of x.ch '
+              '(one step in the model), faults inside plain decompress_file on x.bin itself (non-atomic by design, reproduced by the model and by the '
+              'prefix theorem: a partial x.bin only ever sits next to the intact source).')
 TECHNIQUE = ('Lean 4 proof: case analysis of each call into refused / interrupted / completed, invariant by induction over arbitrary call+fault sequences; '
-             'list lemmas (take/drop/flatten, bisect) for the chunked read; exact differential run with fault injection')
+             'effect lists + prefix (crash) semantics: closed form of the state after k primitive effects, frame lemmas over traces, step = prefix at every '
+             'fault point; list lemmas (take/drop/flatten, bisect) for the chunked read; character-list model of pathlib suffix logic; translator tie '
+             '(event sequence of the source = call list of the model); exact differential run with fault injection at chunks, at the publishing '
+             'rename / move and between effects')
 
 FIX = None  # set in _setup
 
@@ -513,6 +567,71 @@ def _publish_fault(how, rec, kind):
             setattr(obj, name, orig)
 
 
+XF_COMPRESS = ('pre_header', 'pre_check', 'pre_unlink')
+XF_DECOMPRESS = ('pre_unlink_cbin', 'pre_unlink_ch')
+
+
+@contextlib.contextmanager
+def _inject_x(xf, fired):
+    """Interruption BETWEEN two file-system effects of a call (an exception raised by whatever comes next, before it acts):
+    compress_file:  'pre_header'  all chunks are in x.cbin_tmp, x.ch not yet opened (raised by the pool's join(): stand-in pool only)
+                    'pre_check'   x.ch written, mtscomp's check not yet run (mtscomp.check raises)
+                    'pre_unlink'  x.cbin_tmp renamed to x.cbin, the source not yet removed (the unlink of *.bin raises)
+    decompress_file(keep_original=False): 'pre_unlink_cbin' / 'pre_unlink_ch'  x.bin complete, the unlink of *.cbin / *.ch raises
+    Whatever primitive removes a file (Path.unlink, os.unlink, os.remove) is refused for that suffix only."""
+    import mtscomp
+    import pathlib
+    import os as _os
+    if not xf:
+        yield
+        return
+    if xf == 'pre_header':
+        orig = _SerialPool.join
+
+        def join(self):
+            fired.append(xf)
+            raise Boom('injected between the last chunk and the header')
+        _SerialPool.join = join
+        try:
+            yield
+        finally:
+            _SerialPool.join = orig
+        return
+    if xf == 'pre_check':
+        orig = mtscomp.check
+
+        def check(*a, **kw):
+            fired.append(xf)
+            raise Boom('injected between the header and the check')
+        mtscomp.check = check
+        try:
+            yield
+        finally:
+            mtscomp.check = orig
+        return
+    suffix = {'pre_unlink': '.bin', 'pre_unlink_cbin': '.cbin', 'pre_unlink_ch': '.ch'}[xf]
+
+    def guard(orig):
+        def wrapped(*a, **kw):
+            try:
+                hit = Path(_os.fspath(a[0])).suffix == suffix
+            except Exception:
+                hit = False
+            if hit:
+                fired.append(xf)
+                raise Boom(f'injected before the removal of {a[0]}')
+            return orig(*a, **kw)
+        return wrapped
+    saved = [(pathlib.Path, 'unlink', pathlib.Path.unlink), (_os, 'unlink', _os.unlink), (_os, 'remove', _os.remove)]
+    for obj, name, orig in saved:
+        setattr(obj, name, guard(orig))
+    try:
+        yield
+    finally:
+        for obj, name, orig in saved:
+            setattr(obj, name, orig)
+
+
 def _stale_cbin(rec):
     """x.bin and x.cbin both present and x.cbin is not exactly the compressed image of the current x.bin (other version,
     or another number of chunks)."""
@@ -570,10 +689,20 @@ class Engine:
                 pf = 'patch'
         if kind == 'decompress':
             pf = None
+        # interruption between two effects (only on calls without another fault; 'pre_header' needs the stand-in pool)
+        import mtscomp as _m
+        xf = op.get('xf') if (k is None and not pf) else None
+        if xf == 'pre_header' and _m.ThreadPool is not _SerialPool:
+            xf = None
+        if kind == 'compress' and xf == 'pre_check' and _stale_cbin(rec):
+            xf = None          # x.ch already rewritten, x.cbin_tmp not yet renamed, next to a stale x.cbin: the same excluded class as the failing rename
+        xfired = []
+        stale_out = (kind == 'decompress' and bool(op.get('overwrite')) and rec.path('bin').exists())
+        stale_tmp = (kind == 'toscratch' and rec.path('sbin_temp' if op.get('scratch') else 'bin_temp').exists())
         try:
             if kind == 'compress':
                 n_src = rec.n_chunks_of('bin')
-                with _inject('c', k, fired), _publish_fault(pf, rec, 'compress'):
+                with _inject('c', k, fired), _publish_fault(pf, rec, 'compress'), _inject_x(xf if xf in XF_COMPRESS else None, xfired):
                     if op.get('pos'):     # keep_original passed positionally
                         ret = sr.compress_file(bool(op['keep']), chunk_duration=rec.chunk_duration, n_threads=T)
                     else:
@@ -584,7 +713,7 @@ class Engine:
                 kw = dict(n_threads=T)
                 if op['overwrite']:
                     kw['overwrite'] = True
-                with _inject('d', k, fired):
+                with _inject('d', k, fired), _inject_x(xf if xf in XF_DECOMPRESS else None, xfired):
                     if op.get('pos'):
                         ret = sr.decompress_file(bool(op['keep']), **kw)
                     else:
@@ -604,14 +733,33 @@ class Engine:
         except Exception as e:   # noqa
             out = _err_name(e)
         j = 'N' if (k is None or k >= n_src) else str((k // T) * T)
+        # the model line: the call with its fault point (FsCompress.step), or — for an interruption between two effects, and for
+        # every second fired chunk fault — the PREFIX of the effect list (FsCompressEffects.crash…: k primitive effects)
+        as_prefix = bool(fired) and j != 'N' and op.get('as_prefix')
+        self.last_crash = None
         if kind == 'compress':
             line = f"compress {fb} {int(op['keep'])} {j} {int(bool(pf))}"
+            if xfired:
+                kk = n_src + {'pre_header': 1, 'pre_check': 2, 'pre_unlink': 3}[xfired[0]]
+                line = f"crash compress {fb} {int(op['keep'])} {kk}"
+            elif as_prefix:
+                line = f"crash compress {fb} {int(op['keep'])} {int(j) + 1}"
         elif kind == 'decompress':
             line = f"decompress {fb} {int(op['keep'])} {int(op['overwrite'])} {j}"
+            if xfired:
+                kk = int(stale_out) + n_src + {'pre_unlink_cbin': 1, 'pre_unlink_ch': 2}[xfired[0]]
+                line = f"crash decompress {fb} {int(op['keep'])} {int(op['overwrite'])} {kk}"
+            elif as_prefix:
+                line = f"crash decompress {fb} {int(op['keep'])} {int(op['overwrite'])} {int(stale_out) + int(j) + 1}"
         else:
             line = f"toscratch {fb} {int(op['scratch'])} {j} {int(bool(pf))}"
+            if as_prefix:
+                line = f"crash toscratch {fb} {int(op['scratch'])} {int(bool(op['scratch'])) + int(stale_tmp) + int(j) + 1}"
+        if line.startswith('crash'):
+            self.last_crash = line
         self.last_pf = pf
-        return out, _suffix_name(sr.file_bin), line, bool(fired) or (bool(pf) and out == 'err OSError')
+        self.last_xf = xfired[0] if xfired else None
+        return out, _suffix_name(sr.file_bin), line, bool(fired) or bool(xfired) or (bool(pf) and out == 'err OSError')
 
     def close(self):
         for sr in self.readers:
@@ -667,6 +815,13 @@ def _gen_op(rng, n, fb):
     # the rename / move that publishes the result fails (mostly on calls with no chunk fault, where it is reached)
     if kind != 'decompress' and rng.random() < (0.3 if op['k'] is None else 0.05):
         op['pf'] = str(rng.choice(['patch', 'dir'])) if kind == 'compress' else 'patch'
+    # interruption between two effects of the call (used when no other fault is set); prefix form of the model line for chunk faults
+    u = rng.random()
+    if kind == 'compress' and u < 0.3:
+        op['xf'] = str(rng.choice(XF_COMPRESS))
+    elif kind == 'decompress' and u < 0.3:
+        op['xf'] = str(rng.choice(XF_DECOMPRESS))
+    op['as_prefix'] = bool(rng.random() < 0.5)
     return op
 
 
@@ -775,7 +930,8 @@ def _run_fs_case_inner(case, rng, n_ops, hook):
             stale_outputs = _stale_outputs(rec)
             outcome, fb_after, line, fired = eng.call(sr, op)
             info = {'kind': 'call', 'op': op, 'fired': fired, 'stale': stale, 'outcome': outcome, 'fb_before': fb_before,
-                    'fb_after': fb_after, 'i': i - 1, 'rewrites': state['rewrites'], 'stale_outputs': stale_outputs}
+                    'fb_after': fb_after, 'i': i - 1, 'rewrites': state['rewrites'], 'stale_outputs': stale_outputs,
+                    'xf': eng.last_xf, 'crash_line': eng.last_crash}
             after = rec.snapshot()
             extra = rec.extra_files()
             ans = f'{outcome} fb={fb_after} | {rec.state_string(after)}' + (f' extra={extra}' if extra else '')
@@ -826,21 +982,33 @@ def _fs_cases(ctx, count):
     return cases
 
 
-def _all_ops(n):
-    """Every call (reader entry x kind x flags x fault point) on a recording of n chunks, single-threaded."""
+def _all_ops(n, prefix_forms=True):
+    """Every call (reader entry x kind x flags x fault point — chunk faults, failing rename / move, interruption between two
+    effects) on a recording of n chunks, single-threaded; with `prefix_forms` every chunk fault of compress / toscratch (and
+    decompress with overwrite) a second time with the model line in its prefix-of-the-effect-list form."""
     ops = []
     faults = [None] + list(range(n))
     for e in ('bin', 'cbin', 'meta'):
         for k in faults:
             for keep in (True, False):
                 ops.append({'op': 'compress', 'k': k, 'keep': keep, 'T': 1, 'reader': 'new:' + e})
+                if k is not None and prefix_forms:
+                    ops.append({'op': 'compress', 'k': k, 'keep': keep, 'T': 1, 'reader': 'new:' + e, 'as_prefix': True})
                 for ov in (True, False):
                     ops.append({'op': 'decompress', 'k': k, 'keep': keep, 'overwrite': ov, 'T': 1, 'reader': 'new:' + e})
             for scr in (True, False):
                 ops.append({'op': 'toscratch', 'k': k, 'scratch': scr, 'reader': 'new:' + e})
+                if k is not None and prefix_forms:
+                    ops.append({'op': 'toscratch', 'k': k, 'scratch': scr, 'reader': 'new:' + e, 'as_prefix': True})
+                    ops.append({'op': 'decompress', 'k': k, 'keep': scr, 'overwrite': True, 'T': 1, 'reader': 'new:' + e, 'as_prefix': True})
         for keep in (True, False):
             for pf in ('patch', 'dir'):
                 ops.append({'op': 'compress', 'k': None, 'keep': keep, 'T': 1, 'reader': 'new:' + e, 'pf': pf})
+            for xf in XF_COMPRESS:
+                ops.append({'op': 'compress', 'k': None, 'keep': keep, 'T': 1, 'reader': 'new:' + e, 'xf': xf})
+        for ov in (True, False):
+            for xf in XF_DECOMPRESS:
+                ops.append({'op': 'decompress', 'k': None, 'keep': False, 'overwrite': ov, 'T': 1, 'reader': 'new:' + e, 'xf': xf})
         for scr in (True, False):
             ops.append({'op': 'toscratch', 'k': None, 'scratch': scr, 'reader': 'new:' + e, 'pf': 'patch'})
     return ops
@@ -876,7 +1044,7 @@ def _exhaustive_cases(rp, depth, inits=('bin', 'cbin', 'both')):
     out = []
     prefixes = [[]] if depth == 1 else _state_makers() if depth == 2 else _rewrite_prefixes()
     for init in inits:
-        for op in _all_ops(n):
+        for op in _all_ops(n, prefix_forms=(depth == 1)):
             for pre in prefixes:
                 out.append({'rec': rp, 'init': init, 'tdef': 1, 'ops': [dict(o) for o in pre] + [dict(op)]})
     return out
@@ -897,15 +1065,23 @@ def correspondence_fs(ctx, count):
         for line, ans, info in res:
             lines.append(line); impl.append(ans); meta.append((case, info))
     # exhaustive box: every single call (quick) / every pair (state maker, call) (thorough) on a small recording
-    box = {'flavour': 'nidq', 'nc': int(ctx.rng.choice([1, 2, 3])), 'cs': 8, 'sizes': [8, 5] if ctx.quick else [8, 8, 5],
+    # (a quick run escalated by a broken translator tie runs at an intermediate depth: two chunks, every third pair)
+    mid = (ctx.tier == 'quick' and not ctx.quick)
+    box = {'flavour': 'nidq', 'nc': int(ctx.rng.choice([1, 2, 3])), 'cs': 8, 'sizes': [8, 5] if (ctx.quick or mid) else [8, 8, 5],
            'seed': int(ctx.rng.integers(0, 2 ** 31))}
-    ex = _exhaustive_cases(box, 1) + (_exhaustive_cases(box, 'rw', inits=('bin',))[::2] if ctx.quick else _exhaustive_cases(box, 2))
+    if ctx.quick:
+        ex = _exhaustive_cases(box, 1) + _exhaustive_cases(box, 'rw', inits=('bin',))[::2]
+    elif mid:
+        ex = _exhaustive_cases(box, 1) + _exhaustive_cases(box, 'rw', inits=('bin',)) + _exhaustive_cases(box, 2)[::3]
+    else:
+        ex = _exhaustive_cases(box, 1) + _exhaustive_cases(box, 2)
     for case in ex:
         for line, ans, info in _run_fs_case(case):
             if info['kind'] != 'open' or not ctx.quick or True:
                 lines.append(line); impl.append(ans); meta.append((case, dict(info, box=True)))
     ctx.note(f'exhaustive box: {len(ex)} cases = every call (entry point x kind x keep/overwrite/scratch x fault at each chunk) '
-             f'{"" if ctx.quick else "after every state-making first call "}from each initial directory, recording {box}')
+             f'{"" if ctx.quick else "and every third pair (state-making first call, call) " if mid else "after every state-making first call "}'
+             f'from each initial directory, recording {box}')
     model = ctx.lean(lines)
     for line, a, m, (case, info) in zip(lines, impl, model, meta):
         rp = case['rec']
@@ -935,6 +1111,10 @@ def correspondence_fs(ctx, count):
                 tags.append('uuid_in_names=' + rp['uuid'])
             if op.get('pf'):
                 tags.append('publish_fault=' + ('fired' if info['outcome'] == 'err OSError' else 'not_reached'))
+            if info.get('xf'):
+                tags.append('interrupted_between_effects=' + info['xf'])
+            if info.get('crash_line'):
+                tags.append('model=prefix_of_effect_list')
             if info.get('rewrites'):
                 tags.append('after_rewrite_of_bin')
             if info.get('stale_outputs'):
@@ -1204,6 +1384,129 @@ def correspondence_reads(ctx, count, nsel_per):
                     nontrivial=nontriv, tags=('read:calibrated',))
 
 
+# ---------------------------------------------------------------------------------------------
+# path names: pathlib suffix logic, is_mtscomp, _get_companion_file, the data file chosen by Reader.__init__
+# ---------------------------------------------------------------------------------------------
+PATH_STEMS = ['rec_g0_t0.imec.ap', 'rec_g0_t0.imec0.lf', 'rec_g0_t0.nidq', '_spikeglx_ephysData_g0_t0.imec1.ap', 'a', 'cbin', 'x.cbin.ap',
+              'my.cbin', 'rec..ap', 'rec.', '.hidden', '.hidden.ap', 'cbin_tmp.x', 'a.b', 'bin', 'r-1_2.ap', 'rec.ap.bin', 'ch']
+PATH_SUFFIXES = ['.bin', '.cbin', '.cbin_tmp', '.ch', '.meta', '.bin_temp', '', '.lf', '.CBIN', '.xcbinx', '.cbin2', '.c', '.bincbin', '.', '.a.b']
+SOURCE_SUFFIXES = ['.bin', '.cbin', '.cbin_tmp', '.ch', '.meta', '.bin_temp']
+
+
+def _enc_name(n):
+    return n if n else '~'
+
+
+def _gen_name(rng):
+    st = str(rng.choice(PATH_STEMS))
+    if rng.random() < 0.25:
+        st = ''.join(str(rng.choice(['a', 'b', '.', '.', '_', 'cbin', 'bin', 'c', 'tmp', '-', '1'])) for _ in range(int(rng.integers(0, 6))))
+    if rng.random() < 0.3:
+        st = st + '.' + UUIDS[int(rng.integers(0, len(UUIDS)))]
+    n = st + str(rng.choice(PATH_SUFFIXES))
+    return n
+
+
+def _stem_no_uuid(name):
+    import one.alf.path
+    return one.alf.path.remove_uuid_string(Path(name)).stem
+
+
+def correspondence_paths(ctx, count):
+    """(1) pure name logic on thousands of names (several dots, leading / trailing dots, 'cbin' inside the stem, UUID parts):
+    PurePath.suffix / .stem / .with_suffix and Reader.is_mtscomp vs FsPath.suffix / stem / withSuffix / isMtscomp;
+    (2) real directories: _get_companion_file(name, pattern) (Path and str argument) and the data file chosen by
+    spikeglx.Reader(name, open=False) vs FsPath.companion / resolveName, the listing handed to the model in os.scandir order."""
+    import spikeglx
+    rng = ctx.rng
+    lines, impl, meta = [], [], []
+
+    def add(line, ans, op, tags, nontrivial=True, norm=None):
+        lines.append(line); impl.append(ans); meta.append((op, tags, nontrivial, norm))
+    for _ in range(count):
+        n = _gen_name(rng)
+        if n in ('', '.', '..'):
+            continue
+        pp = Path('/d') / n
+        many = n.count('.') >= 2
+        add(f'suffix {_enc_name(n)}', _enc_name(pp.suffix), 'path-suffix', ('path:suffix', 'dots=' + ('>=2' if many else str(n.count('.')))), many)
+        add(f'stem {_enc_name(n)}', _enc_name(pp.stem), 'path-stem', ('path:stem',), many)
+        suf = str(rng.choice(SOURCE_SUFFIXES * 3 + PATH_SUFFIXES + ['x', 'bin', '.a/b']))
+        try:
+            r = 'ok ' + _enc_name(pp.with_suffix(suf).name)
+        except ValueError:
+            r = 'err ValueError'
+        add(f'withsuffix {_enc_name(n)} {_enc_name(suf)}', r, 'path-with_suffix', ('path:with_suffix', 'result=' + r[:3]), many)
+        sr = spikeglx.Reader.__new__(spikeglx.Reader)
+        sr.file_bin = pp if rng.random() < 0.5 else Path(n)
+        # demanded on the names a reader can hold per the property: suffix .cbin (compressed) or a suffix without the word cbin
+        # (not compressed) — what `"cbin" in suffix` answers for .cbin_tmp / .cbin2 / .xcbinx is modelled (theorem) but not a demand
+        if pp.suffix == '.cbin' or 'cbin' not in pp.suffix:
+            add(f'ismtscomp {_enc_name(n)}', str(bool(sr.is_mtscomp)), 'path-is_mtscomp', ('path:is_mtscomp', f'is_mtscomp={bool(sr.is_mtscomp)}'), 'cbin' in n)
+        # the chain of names compress_file derives: x.bin -> .cbin_tmp -> .cbin ; and decompress_to_scratch: x.cbin -> .bin -> .bin_temp
+        try:
+            tmp = pp.with_suffix('.cbin_tmp')
+            add(f'withsuffix {_enc_name(tmp.name)} .cbin', 'ok ' + tmp.with_suffix('.cbin').name, 'path-with_suffix', ('path:tmp_to_final',), many)
+        except ValueError:
+            pass
+    # real directories
+    _setup()
+    meta_txt = (FIX / FLAVOURS['nidq'][0]).read_text()
+    for ci in range(max(6, count // 12)):
+        d = Path(tempfile.mkdtemp(prefix='c02p_'))
+        try:
+            stem = str(rng.choice([s for s in PATH_STEMS if not s.startswith('.') and not s.endswith('.') and s]))
+            uu = rng.random() < 0.4
+            names = set()
+            for sfx in SOURCE_SUFFIXES + ['.lf.bin', '.extra.meta', '.ap.ch']:
+                if rng.random() < 0.5:
+                    u = ('.' + UUIDS[int(rng.integers(0, len(UUIDS)))]) if (uu and rng.random() < 0.8) else ''
+                    names.add(stem + u + sfx)
+            if rng.random() < 0.5:
+                names.add(stem + '2.meta'); names.add(stem + '2.bin')
+            for nm in names:
+                (d / nm).write_text(meta_txt if nm.endswith('.meta') else 'x')
+            listing = [e.name for e in os.scandir(d)]
+            dl = ','.join(listing) if listing else '!'
+            # queries: names present in the directory, and siblings that are not
+            queries = list(names) + [stem + s for s in ('.bin', '.cbin', '.meta', '.ch')]
+            if uu:
+                queries += [stem + '.' + UUIDS[0] + s for s in ('.bin', '.cbin', '.meta')]
+            for q in sorted(set(queries)):
+                st = _stem_no_uuid(q)
+                if any(ch in st for ch in '*?['):
+                    continue
+                for pat in ('.meta', '.ch', str(rng.choice(['.bin', '.cbin', '.lf']))):
+                    cands = [f for f in listing if f.startswith(st) and f[len(st):].endswith(pat)]
+                    arg = (d / q) if rng.random() < 0.5 else str(d / q)
+                    got = spikeglx._get_companion_file(arg, pat)
+                    tags = ('path:companion', 'pattern=' + pat, 'direct' if (d / q).with_suffix(pat).exists() else f'glob_candidates={min(len(cands), 2)}',
+                            'uuid_in_names=' + str(uu), 'arg=' + type(arg).__name__)
+                    # several glob candidates and no direct hit: WHICH one is taken (directory order) is not a demand — both
+                    # sides are only required to take one of them
+                    free = (lambda x, c=tuple(cands): 'ok one-of-the-candidates' if x.startswith('ok ') and x[3:] in c else x) \
+                        if (len(cands) >= 2 and not (d / q).with_suffix(pat).exists()) else None
+                    add(f'companion {dl} {q} {pat} {_enc_name(st)}', 'ok ' + Path(got).name, 'path-companion', tags, norm=free)
+                # Reader.__init__: the data file for this entry point (needs the companion .meta to exist: ASSUMPTIONS)
+                cm = Path(spikeglx._get_companion_file(d / q, '.meta'))
+                if cm.exists() and (q.endswith('.meta') or q.endswith('.bin') or q.endswith('.cbin')):
+                    try:
+                        sr = spikeglx.Reader(d / q, open=False)
+                        res = 'ok ' + (sr.file_bin.name if sr.file_bin is not None else 'none')
+                    except Exception:   # noqa  (which exception a missing data file raises is not a demand)
+                        res = 'err'
+                    add(f'resolve {dl} {q} {_enc_name(st)}', res, 'path-resolve',
+                        ('path:Reader.__init__', 'entry=' + Path(q).suffix, 'resolved=' + (res.split('.')[-1] if res.startswith('ok ') else res)),
+                        norm=lambda x: 'err' if x.startswith('err') else x)
+        finally:
+            shutil.rmtree(d, ignore_errors=True)
+    model = ctx.lean(lines)
+    for line, a, m, (op, tags, nontriv, norm) in zip(lines, impl, model, meta):
+        if norm:
+            a, m = norm(a), norm(m)
+        ctx.compare(op, {'path': line}, a, m, nontrivial=nontriv, tags=tags)
+
+
 def correspondence(ctx):
     import time
     _setup()
@@ -1211,7 +1514,9 @@ def correspondence(ctx):
     correspondence_fs(ctx, ctx.n(130, 2000))
     t1 = time.time()
     correspondence_reads(ctx, ctx.n(45, 600), ctx.n(30, 40))
-    ctx.note(f'timing: file-system sequences {t1 - t0:.1f}s, reads {time.time() - t1:.1f}s')
+    t2 = time.time()
+    correspondence_paths(ctx, ctx.n(600, 6000))
+    ctx.note(f'timing: file-system sequences {t1 - t0:.1f}s, reads {t2 - t1:.1f}s, path names {time.time() - t2:.1f}s')
     import spikeglx
     ctx.compare('const', {'const': 'SAMPLE_SIZE'}, f"{spikeglx.SAMPLE_SIZE} {ctx.consts.get('SAMPLE_SIZE', 2)}", '2 2', nontrivial=False,
                 tags=('const',))
@@ -1304,8 +1609,15 @@ def oracle_fs(case):
         where = f"call #{info['i']} {kind}"
         if info['outcome'].startswith('ok('):
             viol.append(f'{where}: returned an unexpected path: {info["outcome"]}')
-        # after ANY failed call the reader still points at its (existing) source
-        if not ok and B.get(info['fb_before']) is not None and A.get(info['fb_before']) is None:
+        # after ANY failed call the reader still points at its (existing) source — unless the failure came after the replacement
+        # was complete (an interruption between the last effects of an in-place call)
+        if kind == 'compress':
+            replaced = A['cbin'] is not None and _decode(rec, A['cbin'], A['ch']) == B['bin']
+        elif kind == 'decompress':
+            replaced = A['bin'] is not None and B['cbin'] is not None and A['bin'] == _decode(rec, B['cbin'], B['ch'])
+        else:
+            replaced = False
+        if not ok and B.get(info['fb_before']) is not None and A.get(info['fb_before']) is None and not replaced:
             viol.append(f'{where} failed ({info["outcome"]}) and its source x.{info["fb_before"]} is gone (removed before its replacement carried the final name)')
         if not ok and info['fb_after'] != info['fb_before']:
             viol.append(f'{where} failed ({info["outcome"]}) but the reader now points at {info["fb_after"]} instead of {info["fb_before"]}')
@@ -1328,7 +1640,7 @@ def oracle_fs(case):
                 # x.ch is written by mtscomp under its final name once all chunks are in x.cbin_tmp: after a failure it must be
                 # unchanged, or the complete header of the complete temporary file
                 ch_ok = A['ch'] == B['ch'] or (A['cbin_tmp'] is not None and _decode(rec, A['cbin_tmp'], A['ch']) == B['bin'])
-                if A['cbin'] != B['cbin'] or not ch_ok:
+                if (A['cbin'] != B['cbin'] or not ch_ok) and not replaced:
                     viol.append(f'{where} failed ({info["outcome"]}) but a file carrying the final name (.cbin/.ch) was created or changed: '
                                 f'.cbin {None if A["cbin"] is None else len(A["cbin"])} bytes (complete would be {len(rec.ref_cbin)})')
             else:
@@ -1361,10 +1673,12 @@ def oracle_fs(case):
                     viol.append(f'{where} succeeded but the returned file does not exist')
         else:
             if not ok:
-                if A['cbin'] != B['cbin'] or A['ch'] != B['ch']:
+                if (A['cbin'] != B['cbin'] or A['ch'] != B['ch']) and not (replaced and not op['keep']):
                     viol.append(f'{where} failed ({info["outcome"]}) but the compressed source was modified/removed')
-                if info['fired']:
+                if info['fired'] and not info.get('xf'):
                     state['plain_fault'] = True
+                if replaced:
+                    state['cur'] = A['bin']       # x.bin was completely (re)written before the interruption
             else:
                 dec = _decode(rec, B['cbin'], B['ch'])
                 state['cur'] = A['bin']           # x.bin was (re)written from the compressed file on request
@@ -1680,6 +1994,33 @@ def known_findings(ctx):
                 r.close()
             rec.close()
 
+    def orphan_header_at_check():
+        # the same mechanism one effect earlier: compress(keep) -> rewrite x.bin -> compress interrupted after x.ch was written and
+        # before x.cbin_tmp is renamed (here: mtscomp.check raises): the old x.cbin is intact but x.ch describes x.cbin_tmp
+        import spikeglx
+        _setup()
+        rec = Rec({'flavour': 'nidq', 'nc': 3, 'cs': 40, 'sizes': [40, 40, 20], 'seed': 1})
+        rs = []
+        try:
+            with _pool('serial'):
+                rec.init('bin')
+                sb = spikeglx.Reader(rec.path('bin')); rs.append(sb)
+                sb.compress_file(keep_original=True, chunk_duration=rec.chunk_duration, n_threads=1)
+                rec.rewrite(1)
+                sb2 = spikeglx.Reader(rec.path('bin')); rs.append(sb2)
+                try:
+                    with _inject_x('pre_check', []):
+                        sb2.compress_file(keep_original=True, chunk_duration=rec.chunk_duration, n_threads=1)
+                    return False
+                except Boom:
+                    pass
+            st = rec.state_string()
+            return 'bin=100.101.102 ' in st and ' cbin=1000.1001.1002 ' in st and ' ch=1100.1101.1102 ' in st
+        finally:
+            for r in rs:
+                r.close()
+            rec.close()
+
     def meta_uuid():
         # SDSC-style names, one UUID per dataset: the data files find their .meta/.ch (glob in _get_companion_file), the .meta finds no data file
         import spikeglx
@@ -1699,6 +2040,7 @@ def known_findings(ctx):
 
     return {'meta_entry_with_per_dataset_uuid_resolves_no_data_file': meta_uuid,
             'compress_rename_failure_next_to_stale_cbin_orphans_header': orphan_header,
+            'compress_interrupted_after_header_next_to_stale_cbin_orphans_header': orphan_header_at_check,
             'cbin_negative_step_sample_slice': neg_step,
             'cbin_int_sample_index_below_minus_ns_wraps': below_minus_ns,
             'cbin_numpy_integer_sample_index_empty': numpy_int}
